@@ -398,11 +398,15 @@ func runLogPass(k *kernel.K, exs []*logEx, nconn int, logger string, opt map[str
 		if opt["nobody"] {
 			p.harLog.SetOption(har.BodyLogging(false), har.PostDataLogging(false))
 		}
+		cs := func(s string) string { return s }
+		if opt["ct_mixedcase"] {
+			cs = func(s string) string { return strings.ToUpper(s[:1]) + s[1:len(s)-2] + strings.ToUpper(s[len(s)-2:]) }
+		}
 		if opt["ct_optin"] {
-			p.harLog.SetOption(har.BodyLoggingForContentTypes("text/", "application/json"), har.PostDataLoggingForContentTypes("application/x-www-form-urlencoded", "text/"))
+			p.harLog.SetOption(har.BodyLoggingForContentTypes(cs("text/"), cs("application/json")), har.PostDataLoggingForContentTypes(cs("application/x-www-form-urlencoded"), cs("text/")))
 		}
 		if opt["ct_optout"] {
-			p.harLog.SetOption(har.SkipBodyLoggingForContentTypes("image/"), har.SkipPostDataLoggingForContentTypes("application/octet-stream"))
+			p.harLog.SetOption(har.SkipBodyLoggingForContentTypes(cs("image/")), har.SkipPostDataLoggingForContentTypes(cs("application/octet-stream")))
 		}
 		reqLog, resLog = p.harLog, p.harLog
 	case "marbl":
@@ -627,8 +631,10 @@ func runLog(k *kernel.K, focus string) {
 			opt["nobody"] = true
 		case 2:
 			opt["ct_optin"] = true
+			opt["ct_mixedcase"] = w.Chance(1, 2) // media types compare without regard to case
 		case 3:
 			opt["ct_optout"] = true
+			opt["ct_mixedcase"] = w.Chance(1, 2)
 		}
 	case "textlog":
 		opt["headers_only"], opt["decode"] = w.Chance(1, 3), w.Chance(1, 2)
